@@ -15,7 +15,7 @@ DELAYS = [0, 0, 0, 1e-3, 0.05, 0.1 - E, 0.1, 0.1 + E, 0.15, 0.3, 1.0]
 SHORT = [0, 0, 1e-3, 0.05, 0.1]
 ASYNC_KINDS = ['async', 'async', 'async', 'amethod', 'aclassm', 'abusm']
 SYNC_KINDS = ['sync', 'smethod', 'sclassm', 'sbusm']
-EXCS = ['ValueError', 'KeyError', 'RuntimeError', 'Custom', 'LoopClosed', 'NoLoop', 'OSError', 'ZeroDivisionError', 'Unhashable', 'TwoArg', 'Chained']
+EXCS = ['ValueError', 'KeyError', 'RuntimeError', 'Custom', 'LoopClosed', 'NoLoop', 'OSError', 'ZeroDivisionError', 'Unhashable', 'TwoArg', 'Chained', 'Unprintable']
 EXCS_ALL = EXCS + ['TimeoutError']  # a user-raised TimeoutError is treated by the library as a handler timeout (cancels pending child results)
 
 DEFAULT = dict(
@@ -60,7 +60,8 @@ def rand_prog(rng: random.Random, c: dict, level: int, nb: int, own_bus: int, sy
         elif x < 0.80 + c['p_bus'] + c['p_raise']:
             prog.append(['raise', rng.choice(c['exc_kinds'])])
         elif x < 0.80 + c['p_bus'] + c['p_raise'] + c['p_retexc']:
-            prog.append(['retexc', rng.choice(c['exc_kinds'])])
+            # (an object whose __str__ raises cannot be *returned*: the library formats return values for its debug log; raising it is fine)
+            prog.append(['retexc', rng.choice([k for k in c['exc_kinds'] if k != 'Unprintable'])])
         elif x < 0.80 + c['p_bus'] + c['p_raise'] + c['p_retexc'] + c['p_redisp']:
             if not wild:
                 prog.append(['redisp', own_bus])
@@ -496,7 +497,7 @@ def expect_base(rng: random.Random, i: int) -> dict:
         if pinned and rng.random() < 0.5:
             t = 6
         spec = {'type': (t if rng.random() < 0.6 else ('PinnedWire6' if t == 6 else f'E{t}')), 'include': pred(), 'exclude': pred() if rng.random() < 0.5 else None,
-                'predicate': pred() if rng.random() < 0.3 else None, 'timeout': rng.choice([0.05, 0.2, 0.5, 1.0, 3.0, None])}
+                'predicate': pred() if rng.random() < 0.3 else None, 'timeout': rng.choice([0.05, 0.2, 0.5, 1.0, 3.0, None, 0, 0.0, -1.0])}
         actors.append([['sleep', rng.choice([0, 0, 0.02, 0.1, 0.4])], ['expect', rng.randrange(nb), spec]])
     return {'seed': rng.randrange(1 << 30), 'buses': buses, 'fwd': [], 'handlers': hs, 'actors': actors, 'n_exp': n_exp, 'W': 4.0}
 
